@@ -357,3 +357,22 @@ package index
 //@   loop 2:
 //@     invariant true
 //@   ensures result == nil ==> !effectFailed
+
+// ---------------------------------------------------------------------------
+// C16: decoding a document's branch mask when re-adding it to a merged shard
+// ---------------------------------------------------------------------------
+
+// pow2pair(id, mask): id is the single bit 2^j for some j in 0..63 and the
+// remaining mask has at most 64-j bits (generated disjunction; the solver sees
+// plain linear facts, no exponentiation).
+//@ pure func pow2pair(id int, mask int) bool = (id == 1 && mask < 18446744073709551616) || (id == 2 && mask < 9223372036854775808) || (id == 4 && mask < 4611686018427387904) || (id == 8 && mask < 2305843009213693952) || (id == 16 && mask < 1152921504606846976) || (id == 32 && mask < 576460752303423488) || (id == 64 && mask < 288230376151711744) || (id == 128 && mask < 144115188075855872) || (id == 256 && mask < 72057594037927936) || (id == 512 && mask < 36028797018963968) || (id == 1024 && mask < 18014398509481984) || (id == 2048 && mask < 9007199254740992) || (id == 4096 && mask < 4503599627370496) || (id == 8192 && mask < 2251799813685248) || (id == 16384 && mask < 1125899906842624) || (id == 32768 && mask < 562949953421312) || (id == 65536 && mask < 281474976710656) || (id == 131072 && mask < 140737488355328) || (id == 262144 && mask < 70368744177664) || (id == 524288 && mask < 35184372088832) || (id == 1048576 && mask < 17592186044416) || (id == 2097152 && mask < 8796093022208) || (id == 4194304 && mask < 4398046511104) || (id == 8388608 && mask < 2199023255552) || (id == 16777216 && mask < 1099511627776) || (id == 33554432 && mask < 549755813888) || (id == 67108864 && mask < 274877906944) || (id == 134217728 && mask < 137438953472) || (id == 268435456 && mask < 68719476736) || (id == 536870912 && mask < 34359738368) || (id == 1073741824 && mask < 17179869184) || (id == 2147483648 && mask < 8589934592) || (id == 4294967296 && mask < 4294967296) || (id == 8589934592 && mask < 2147483648) || (id == 17179869184 && mask < 1073741824) || (id == 34359738368 && mask < 536870912) || (id == 68719476736 && mask < 268435456) || (id == 137438953472 && mask < 134217728) || (id == 274877906944 && mask < 67108864) || (id == 549755813888 && mask < 33554432) || (id == 1099511627776 && mask < 16777216) || (id == 2199023255552 && mask < 8388608) || (id == 4398046511104 && mask < 4194304) || (id == 8796093022208 && mask < 2097152) || (id == 17592186044416 && mask < 1048576) || (id == 35184372088832 && mask < 524288) || (id == 70368744177664 && mask < 262144) || (id == 140737488355328 && mask < 131072) || (id == 281474976710656 && mask < 65536) || (id == 562949953421312 && mask < 32768) || (id == 1125899906842624 && mask < 16384) || (id == 2251799813685248 && mask < 8192) || (id == 4503599627370496 && mask < 4096) || (id == 9007199254740992 && mask < 2048) || (id == 18014398509481984 && mask < 1024) || (id == 36028797018963968 && mask < 512) || (id == 72057594037927936 && mask < 256) || (id == 144115188075855872 && mask < 128) || (id == 288230376151711744 && mask < 64) || (id == 576460752303423488 && mask < 32) || (id == 1152921504606846976 && mask < 16) || (id == 2305843009213693952 && mask < 8) || (id == 4611686018427387904 && mask < 4) || (id == 9223372036854775808 && mask < 2)
+
+// Only the branch-mask loop is under contract here (the other statements of
+// addDocument read the shard through unverified accessors: may_panic). Every
+// branch name is looked up under a key that is the non-zero single bit of the
+// mask position being decoded - for all 64 bits of the mask.
+//@ func index.addDocument
+//@   may_panic
+//@   loop 2:
+//@     invariant pow2pair(id, mask) || mask == 0
+//@   assert at call:append: id != 0 && pow2pair(id, mask)
